@@ -2,6 +2,7 @@ package worlds
 
 import (
 	"bytes"
+	"compress/zlib"
 	"compress/flate"
 	"compress/gzip"
 	"encoding/binary"
@@ -106,6 +107,10 @@ func grpcCompress(enc string, b []byte) []byte {
 		w, _ := flate.NewWriter(&buf, flate.BestSpeed)
 		w.Write(b)
 		w.Close()
+	case "deflateZ": // "deflate" in the zlib container (RFC 1950), which is what gRPC C core, grpc-js and grpc-dotnet send
+		w := zlib.NewWriter(&buf)
+		w.Write(b)
+		w.Close()
 	case "snappy":
 		w := snappy.NewBufferedWriter(&buf) // framing format, as gRPC's snappy compressors use
 		w.Write(b)
@@ -126,6 +131,12 @@ func grpcDecompress(enc string, b []byte) ([]byte, error) {
 		return io.ReadAll(r)
 	case "deflate":
 		return io.ReadAll(flate.NewReader(bytes.NewReader(b)))
+	case "deflateZ":
+		r, err := zlib.NewReader(bytes.NewReader(b))
+		if err != nil {
+			return nil, err
+		}
+		return io.ReadAll(r)
 	case "snappy":
 		return io.ReadAll(snappy.NewReader(bytes.NewReader(b)))
 	}
@@ -182,6 +193,8 @@ func grpcParseStream(enc string, b []byte) ([]grpcMsg, error) {
 
 type c11Case struct {
 	enc       string
+	ct        string // content-type of a gRPC stream
+	respPlain bool   // the request is gRPC, the response (the direction under test) is not
 	grpc      bool
 	msgs      []grpcMsg
 	stream    []byte
@@ -194,7 +207,7 @@ func (c *c11Case) String() string {
 	for _, m := range c.msgs {
 		fmt.Fprintf(&sb, "%d%s ", len(m.Payload), map[bool]string{true: "c", false: ""}[m.Compressed])
 	}
-	return fmt.Sprintf("enc=%s grpc=%v dir=%d end=%s msgs=[%s] stream=%dB", c.enc, c.grpc, c.dir, c.placement, strings.TrimSpace(sb.String()), len(c.stream))
+	return fmt.Sprintf("enc=%s ct=%s resp_plain=%v grpc=%v dir=%d end=%s msgs=[%s] stream=%dB", c.enc, c.ct, c.respPlain, c.grpc, c.dir, c.placement, strings.TrimSpace(sb.String()), len(c.stream))
 }
 
 // c11Feed pushes the stream through a fresh adapter pair, cut at the given points.
@@ -234,12 +247,19 @@ func c11Feed(c *c11Case, cuts []int) (rec *recProc, sink *recSink, err error) {
 	cToS, sToC := cf.f(u, h2.VerifNewProcessors(sinkC, sinkS))
 	recC, recS := cf.recC, cf.recS
 	ct := "application/grpc"
-	if !c.grpc {
+	if c.ct != "" {
+		ct = c.ct
+	}
+	if !c.grpc && !c.respPlain {
 		ct = "application/json"
+	}
+	encH := c.enc
+	if encH == "deflateZ" {
+		encH = "deflate"
 	}
 	reqH := []hpack.HeaderField{{Name: ":method", Value: "POST"}, {Name: ":path", Value: "/svc/M"}, {Name: "content-type", Value: ct}}
 	if c.enc != "" {
-		reqH = append(reqH, hpack.HeaderField{Name: "grpc-encoding", Value: c.enc})
+		reqH = append(reqH, hpack.HeaderField{Name: "grpc-encoding", Value: encH})
 	}
 	if err := cToS.Header(reqH, false, http2.PriorityParam{}); err != nil {
 		return nil, nil, err
@@ -248,7 +268,11 @@ func c11Feed(c *c11Case, cuts []int) (rec *recProc, sink *recSink, err error) {
 	if c.dir == h2.ServerToClient {
 		respH := []hpack.HeaderField{{Name: ":status", Value: "200"}, {Name: "content-type", Value: ct}}
 		if c.enc != "" {
-			respH = append(respH, hpack.HeaderField{Name: "grpc-encoding", Value: c.enc})
+			respH = append(respH, hpack.HeaderField{Name: "grpc-encoding", Value: encH})
+		}
+		if c.respPlain {
+			// an intermediary or the server answers the gRPC request with a plain HTTP error
+			respH = []hpack.HeaderField{{Name: ":status", Value: "503"}, {Name: "content-type", Value: "text/html"}}
 		}
 		if err := sToC.Header(respH, false, http2.PriorityParam{}); err != nil {
 			return nil, nil, err
@@ -377,7 +401,14 @@ func runC11(k *kernel.K) {
 	c11CurFactory = newC11Factory()
 	defer func() { c11CurFactory = nil }()
 	c := &c11Case{grpc: !w.Chance(1, 8)}
-	c.enc = []string{"", "identity", "gzip", "deflate", "snappy"}[w.Pick([]int{2, 2, 3, 2, 3})]
+	c.enc = []string{"", "identity", "gzip", "deflate", "snappy", "deflateZ"}[w.Pick([]int{2, 2, 3, 2, 3, 1})]
+	if c.grpc {
+		// "application/grpc" [("+proto" / "+json" / {custom})]
+		c.ct = []string{"application/grpc", "application/grpc+proto", "application/grpc+json"}[w.Pick([]int{4, 1, 1})]
+		if c.ct != "application/grpc" {
+			k.Probe("content_type_with_subtype")
+		}
+	}
 	c.placement = []string{"last_data", "separate_empty"}[w.Draw(2)]
 	if w.Chance(1, 2) {
 		c.dir = h2.ServerToClient
@@ -403,6 +434,12 @@ func runC11(k *kernel.K) {
 	c.stream = grpcEncodeStream(c.enc, c.msgs)
 	if !c.grpc {
 		c.stream = bodyBytes(7, 'j', w.Draw(30))
+		if w.Chance(1, 3) {
+			// not gRPC in the direction under test only: a plain response to a gRPC request
+			c.respPlain, c.dir = true, h2.ServerToClient
+			c.stream = append([]byte("<html>"), c.stream...)
+			k.Probe("plain_response_to_grpc_request")
+		}
 	}
 	if len(c.stream) == 0 && c.grpc {
 		// no bytes at all: the only DATA frame is an empty one carrying END_STREAM
